@@ -80,6 +80,8 @@ def do_run(prop, seeds, checks, tier):
                 print(sd, c, "exit", rc, (vio[0] if vio else "no VIOLATION line")[:160])
         finally:
             sh(["git", "-C", REPO, "checkout", "--", "."])
+            # evidence / replays written while a seed was applied describe the SEEDED tree: never leave them in place to be committed
+            sh(["git", "-C", VERIF, "checkout", "--", "evidence"])
         json.dump(res, open(os.path.join(d, "result.json"), "w"), indent=1)
     assert clean_repo()
 
